@@ -5,9 +5,11 @@ use crate::runner::{Env, Job};
 pub mod c01;
 pub mod c02;
 pub mod c03;
+pub mod c04;
 pub mod c05;
 pub mod c06;
 pub mod c07;
+pub mod c08;
 pub mod c09;
 pub mod c10;
 pub mod gcase;
@@ -18,7 +20,7 @@ pub struct Meta {
     pub assumptions: Vec<&'static str>,
 }
 
-const IDS: &[&str] = &["C01", "C02", "C03", "C05", "C06", "C07", "C09", "C10"];
+const IDS: &[&str] = &["C01", "C02", "C03", "C04", "C05", "C06", "C07", "C08", "C09", "C10"];
 
 pub fn all_ids() -> Vec<&'static str> {
     IDS.to_vec()
@@ -29,9 +31,11 @@ pub fn jobs(id: &str, env: &Env) -> Vec<Box<dyn Job>> {
         "C01" => c01::jobs(env),
         "C02" => c02::jobs(env),
         "C03" => c03::jobs(env),
+        "C04" => c04::jobs(env),
         "C05" => c05::jobs(env),
         "C06" => c06::jobs(env),
         "C07" => c07::jobs(env),
+        "C08" => c08::jobs(env),
         "C09" => c09::jobs(env),
         "C10" => c10::jobs(env),
         _ => Vec::new(),
@@ -49,9 +53,11 @@ pub fn meta(id: &str) -> Meta {
         "C01" => (c01::RULE, c01::TECHNIQUE),
         "C02" => (c02::RULE, c02::TECHNIQUE),
         "C03" => (c03::RULE, c03::TECHNIQUE),
+        "C04" => (c04::RULE, c04::TECHNIQUE),
         "C05" => (c05::RULE, c05::TECHNIQUE),
         "C06" => (c06::RULE, c06::TECHNIQUE),
         "C07" => (c07::RULE, c07::TECHNIQUE),
+        "C08" => (c08::RULE, c08::TECHNIQUE),
         "C09" => (c09::RULE, c09::TECHNIQUE),
         "C10" => (c10::RULE, c10::TECHNIQUE),
         _ => ("", ""),
